@@ -278,9 +278,9 @@ def write_replay(prop, payload):
     return os.path.relpath(p, VERIF)
 
 
-def write_evidence(prop, tier, seed, coverage, wall, violations, assumptions):
+def write_evidence(prop, tier, seed, coverage, wall, violations, assumptions, level="proof"):
     os.makedirs(os.path.join(VERIF, "evidence"), exist_ok=True)
-    ev = {"property_id": prop, "tier": tier, "seed": seed, "level": "proof", "coverage": coverage,
+    ev = {"property_id": prop, "tier": tier, "seed": seed, "level": level, "coverage": coverage,
           "assumptions": assumptions, "wall_s": round(wall, 2), "violations": violations}
     open(os.path.join(VERIF, "evidence", prop + ".json"), "w").write(json.dumps(ev, indent=1, sort_keys=True) + "\n")
 
